@@ -516,7 +516,11 @@ def c03_streams(rng, tier, budget):
     for bs, chain in (("http://h//srv/x", [("relative",)]), ("http://h//srv/x", [("relative",), ("with_name", enc("y"), "F", "F")]), ("http://h//srv/x", [("relative",), ("parent",)]),
                       ("http://h//srv/x?q#f", [("relative",), ("with_fragment", "~")]), ("http://u@h:81/a", [("origin",), ("with_path", enc("//x"), "F", "F", "F")]),
                       ("http://h/a", [("with_path", enc(""), "F", "F", "F"), ("with_query", "S" + enc("k=v"))]), ("http://h:80/a", [("with_scheme", enc("https")), ("with_port", "443")]),
-                      ("http://u:p@h/a", [("with_host", enc("[::1]".strip("[]"))), ("with_port", "80")])):
+                      ("http://u:p@h/a", [("with_host", enc("[::1]".strip("[]"))), ("with_port", "80")]),
+                      # names whose STEM is a dot segment: dropping the suffix must not leave '.' / '..' behind
+                      ("http://h/d/s/...a", [("with_suffix", enc(""), "F", "F")]), ("http://h/d/..a", [("with_suffix", enc(""), "F", "F")]),
+                      ("http://h/d/s/...cache?q#f", [("with_suffix", enc(""), "T", "T")]), ("http://h/d/..a", [("with_suffix", enc(".b"), "F", "F")]),
+                      ("http://h/d/s", [("truediv", enc("...a")), ("with_suffix", enc(""), "F", "F")]), ("http://h/d/.a.b", [("with_suffix", enc(""), "F", "F"), ("with_suffix", enc(""), "F", "F")])):
         h = st.new(bs)
         for stp in chain:
             h = st.mod(h, *stp)
@@ -988,6 +992,16 @@ def c06_streams(rng, tier, budget):
             stn.obs_all(stn.new(pre + nm, encoded=True), obs)
         if nm and "/" not in nm and "%" not in nm and nm not in (".", ".."):
             stn.obs_all(stn.mod(stn.new("http://h/d/x"), "with_name", enc(nm), "F", "F"), obs)
+    # "set it to its RAW text": the argument equals, character for character, the raw form the component already has (with escapes in it).
+    # The argument is decoded text, so its '%' must be escaped again and the text must read back as supplied
+    for rawt in ["a%20b", "100%25", "x%2Fy", "%C3%A9", "%41", "a%2Bb", "%FF"]:
+        bsu = stn.new("http://%s:%s@h/d/%s?k=%s#%s" % (rawt, rawt, rawt, rawt, rawt))
+        stn.obs_all(bsu, C06_OBS)
+        for nm, args in (("with_fragment", [enc(rawt)]), ("with_user", [enc(rawt)]), ("with_password", [enc(rawt)]), ("with_name", [enc(rawt), "T", "T"]),
+                         ("with_path", [enc("/d/" + rawt), "F", "T", "T"])):
+            m1 = stn.mod(bsu, nm, *args)
+            stn.obs_all(m1, C06_OBS)
+            stn.obs_all(stn.mod(m1, nm, enc(dec(args[0])) if nm != "with_path" else args[0], *args[1:]), C06_OBS)
     yield "name-shapes", stn
     # alias-then-clean: a decoded value supplied in a form that canonicalises to the SAME raw text (lone surrogates are dropped,
     # pre-encoded text is kept) is supplied first, through every route; then the clean text is supplied and must read back unchanged,
